@@ -121,7 +121,12 @@ Inductive op :=
 | Begin (t : N) (u : uop)
 | End (t : N)
 | Has (e a n : N)                  (* EntityLocal.HasUseCaseSupport *)
-| Read.                            (* a peer reads nodeManagementUseCaseData *)
+| Read                             (* a peer reads nodeManagementUseCaseData *)
+| Par2 (u1 u2 : uop).              (* two operations started together on their own goroutines and left to run freely
+                                      (no parking at the hook).  With the mutex one cycle follows the other; the
+                                      model composes them in the order given.  The harness issues them for different
+                                      entities only, where both orders denote the same registry
+                                      (Proofs: par2_commutes) and compares the data up to the order of its entries. *)
 
 Inductive obs :=
 | Parked                           (* the thread reached UseCase.copied *)
@@ -175,6 +180,13 @@ Definition step (s : st) (o : op) : st * list obs :=
       end
   | Has e a n => (s, [HasR (info_has e a n (data_list (store s)))])
   | Read => (s, render (store s))
+  | Par2 u1 u2 =>
+      match hold s with
+      | Some _ => (s, [NotRunnable])
+      | None =>
+          let d := apply_uop (apply_uop (store s) u1) u2 in
+          ({| store := d; hold := None; wait := wait s |}, Done :: render d)
+      end
   end.
 
 Fixpoint run (s : st) (ops : list op) : st * list (op * list obs) :=
@@ -206,6 +218,10 @@ Definition step_pinned (s : pst) (o : op) : pst * list obs :=
       end
   | Has e a n => (s, [HasR (info_has e a n (data_list (p_store s)))])
   | Read => (s, render (p_store s))
+  | Par2 u1 u2 =>
+      (* without the mutex both copy before either stores: the later store wins *)
+      let d := apply_uop (p_store s) u2 in
+      ({| p_store := d; p_cop := p_cop s |}, Done :: render d)
   end.
 
 Fixpoint run_pinned (s : pst) (ops : list op) : pst * list (op * list obs) :=
@@ -226,6 +242,7 @@ Fixpoint run_pinned (s : pst) (ops : list op) : pst * list (op * list obs) :=
         1 t                          End t
         2 e a n                      Has
         3                            Read
+        4 n u1.. u2..                Par2 u1 u2 (u1 takes the n numbers after n, u2 the rest)
    obs: 0 Parked, 1 Blocked, 2 Busy, 3 Done, 4 t Acquired, 5 NotRunnable, 6 b HasR,
         7 e a RInfo, 8 n ver sub av sc* RSup, 9 REnd *)
 Definition parse_uop (l : list Z) : option uop :=
@@ -245,6 +262,11 @@ Definition parse_op (l : list Z) : option op :=
   | [1; t] => Some (End (Nz t))
   | [2; e; a; n] => Some (Has (Nz e) (Nz a) (Nz n))
   | [3] => Some Read
+  | 4 :: n :: r =>
+      match parse_uop (firstn (Z.to_nat n) r), parse_uop (skipn (Z.to_nat n) r) with
+      | Some u1, Some u2 => Some (Par2 u1 u2)
+      | _, _ => None
+      end
   | _ => None
   end.
 
